@@ -47,6 +47,39 @@ func size(r *fw.Rand) int {
 	}
 }
 
+// ThresholdSize draws a large count that sits on or next to a power of two
+// (where block-wise, pairwise or buffered code paths switch over) or is a random
+// size up to max.
+func ThresholdSize(r *fw.Rand, max int) int {
+	if r.Chance(1, 3) {
+		return r.Range(300, max)
+	}
+	p := 1 << uint(r.Range(6, 12)) // 64 .. 4096
+	n := p + r.Range(-2, 2)
+	if r.Chance(1, 4) {
+		n = 2*p + p/2 + r.Range(-1, 1)
+	}
+	if n > max {
+		n = max
+	}
+	return n
+}
+
+// parts draws the number of parts of a multi-part geometry: the usual small
+// sizes, and with Big now and then many (small) parts.
+func (o ShapeOpts) parts(r *fw.Rand, limit int) (int, ShapeOpts) {
+	n := size(r)
+	if limit > 0 && n > limit {
+		n = limit
+	}
+	if o.Big && r.Chance(1, 400) {
+		n = ThresholdSize(r, 600)
+		o.Big = false
+		o.MaxPts = 3
+	}
+	return n, o
+}
+
 func (o ShapeOpts) maxPts() int {
 	if o.MaxPts > 0 {
 		return o.MaxPts
@@ -71,6 +104,9 @@ func line(r *fw.Rand, stride int, cl FloatClass, o ShapeOpts) [][]float64 {
 	if o.Big && r.Chance(1, 40) {
 		n = r.Range(50, 300)
 	}
+	if o.Big && r.Chance(1, 250) {
+		n = ThresholdSize(r, 5000)
+	}
 	out := make([][]float64, n)
 	for i := range out {
 		out[i] = o.coord(r, stride, cl)
@@ -92,10 +128,7 @@ func ring(r *fw.Rand, stride int, cl FloatClass, o ShapeOpts) [][]float64 {
 }
 
 func polygon(r *fw.Rand, stride int, cl FloatClass, o ShapeOpts) [][][]float64 {
-	n := size(r)
-	if n > 4 {
-		n = 4
-	}
+	n, o := o.parts(r, 4)
 	out := make([][][]float64, n)
 	for i := range out {
 		out[i] = ring(r, stride, cl, o)
@@ -129,7 +162,7 @@ func Shape(r *fw.Rand, kind model.Kind, layout geom.Layout, cl FloatClass, o Sha
 	case model.LinearRing:
 		g.C1 = ring(r, stride, cl, o)
 	case model.MultiPoint:
-		n := size(r)
+		n, _ := o.parts(r, 0)
 		g.C1 = make([][]float64, n)
 		for i := range g.C1 {
 			if !o.NoEmptyPointMember && r.Chance(1, 4) {
@@ -141,15 +174,15 @@ func Shape(r *fw.Rand, kind model.Kind, layout geom.Layout, cl FloatClass, o Sha
 	case model.Polygon:
 		g.C2 = polygon(r, stride, cl, o)
 	case model.MultiLineString:
-		n := size(r)
+		n, o := o.parts(r, 0)
 		g.C2 = make([][][]float64, n)
 		for i := range g.C2 {
 			g.C2[i] = line(r, stride, cl, o)
 		}
 	case model.MultiPolygon:
-		n := size(r)
-		if n > 5 {
-			n = 5
+		n, o := o.parts(r, 5)
+		if n > 200 {
+			n = 200
 		}
 		g.C3 = make([][][][]float64, n)
 		for i := range g.C3 {
